@@ -145,7 +145,7 @@ R.contract(
     },
     locals={"nli": "list[~Val]", "args": "list[~Val]", "dependent_values": "dict[~Str,~Val]", "dependent_vals": "dict[~Str,~Val]", "initial_vals": "dict[~Str,~Val]"},
     modifies=list(CN_MOD),
-    props=["C01", "C02", "C03", "C07", "C10"],
+    props=["C01", "C02", "C03", "C04", "C07", "C10"],
 )
 
 # ---- the synthesis entry point --------------------------------------------------------------------------------------
@@ -169,7 +169,7 @@ R.contract(
     },
     raises={"GeneticEngineError": "handlers_may_fail()", "SynthesisException": "handlers_may_fail()"},
     modifies=["random.*", "decider.random.*", "decider.expanding"],
-    props=["C01", "C03", "C07", "C10"],
+    props=["C01", "C03", "C04", "C07", "C10"],
     note="synthesis entry point with a depth-limited decider (grow / full / PI-grow): a well-typed value of the requested symbol no deeper than "
     "the decider's limit; draws come from `random` and from the decider's own source only; the grammar is not in the frame (C10)",
 )
